@@ -460,8 +460,14 @@ input::
         numpy.seterr(**settings)
         if at: return x_
         # clip x0 within bounds
+        xc = x_
         x_ = x_ != x0
-        x0[x_] = random.uniform(self._strictMin,self._strictMax)[x_]
+        settings = numpy.seterr(all='ignore')
+        xr = random.uniform(self._strictMin,self._strictMax)
+        numpy.seterr(**settings)
+        # there is no uniform sample with an infinite bound: clip at the bound
+        xr = numpy.where(numpy.isfinite(xr), xr, xc)
+        x0[x_] = xr[x_]
         return x0
 
     def SetInitialPoints(self, x0, radius=0.05):
